@@ -26,6 +26,18 @@ func checkHistoryC07(run *rt.Run, ops []Op, types []string) string {
 			run.Violation("history-pattern:policy-result:"+op.Kind, out.Mismatch, wit(nil))
 			return sig
 		}
+		// re-registering a node id affects only pipelines registered afterwards: the objects the registered
+		// pipelines captured keep working, in particular nothing closed them
+		for _, t := range types {
+			for _, p := range w.M.PipesOf(t) {
+				for _, o := range p.objs {
+					if o.Closes() > 0 {
+						run.Violation("history-pattern:closed-in-use:"+op.Kind, fmt.Sprintf("after %s node object %s (id %s), which the registered pipeline %s/%s still uses, has been closed", op, o.Obj, o.ID, t, p.pid), wit(nil))
+						return sig
+					}
+				}
+			}
+		}
 		for _, t := range types {
 			o := w.DoSend(t, 0, nil, 0)
 			o.Quiesce(w, 5*time.Second)
